@@ -19,6 +19,31 @@ Absent == 0 - 1
 Fails(name, holds) == IF holds THEN {} ELSE {name}
 Asc(S) == SetToSortSeq(S, LAMBDA a, b : a < b)
 
+(* PRE-PARTITIONED SOURCES.  `pre` = [how, on] says what the frame went through before the judged operation:
+     [how |-> "none", on |-> <<>>]    nothing: a freshly built collection
+     how = "shuffle"    hash-shuffled on the columns `on` (K')
+     how = "merge"      the result of an earlier inner hash join on K' with a frame that holds every K' combination once
+     how = "groupby"    the result of groupby(K', dropna = FALSE).first(split_out = n).reset_index(); the rows are distinct on K'
+     how = "setindex"   set_index on (a copy of) the single column K'
+   `on` is a sequence over {"k", "k2", "rid"} in ANY relation to the columns K the operation works on (equal, a proper
+   subset, a proper superset, overlapping, disjoint).  Every such stage returns the same multiset of rows (it may
+   replace the index: the harness then reports the operation with ign = TRUE) and leaves partitioning knowledge behind.
+   NOTHING of the contracts below looks at `pre`: knowledge about an earlier partitioning may let dask skip a shuffle,
+   it must never change which rows come out, which lie together, or their order.                                  *)
+NoPre == [how |-> "none", on |-> <<>>]
+ColOf(row, c) == CASE c = "k" -> row.k [] c = "k2" -> row.k2 [] OTHER -> row.rid
+PreKey(row, on) == [q \in DOMAIN on |-> ColOf(row, on[q])]
+PreOK(rows, pre) ==
+  CASE pre.how = "none"     -> pre.on = <<>>
+    [] pre.how = "groupby"  -> pre.on # <<>> /\ \A i, j \in DOMAIN rows : i # j => PreKey(rows[i], pre.on) # PreKey(rows[j], pre.on)
+    [] pre.how = "setindex" -> Len(pre.on) = 1 /\ \A i \in DOMAIN rows : ColOf(rows[i], pre.on[1]) # NA
+    [] pre.how \in {"shuffle", "merge"} -> pre.on # <<>>
+    [] OTHER -> FALSE
+PreRelation(pre, cols) ==
+  LET kp == SeqSet(pre.on) IN
+  IF pre.how = "none" THEN "none" ELSE IF kp = cols THEN "equal" ELSE IF kp \subseteq cols THEN "subset"
+  ELSE IF cols \subseteq kp THEN "superset" ELSE IF kp \cap cols # {} THEN "overlap" ELSE "disjoint"
+
 \* the cells an operation must not touch
 Cells(r)     == <<r.rid, r.k, r.k2>>
 CellsIdx(r)  == <<r.rid, r.idx, r.k, r.k2>>
@@ -140,10 +165,17 @@ DropDuplicates(src, subset, keep) == LET sv == Asc(Survivors(src, subset, keep))
 UniqueValues(src) == { src[i].k : i \in DOMAIN src }                      \* NA is a value of its own
 NUnique(src, dropna) == Cardinality(IF dropna THEN UniqueValues(src) \ {NA} ELSE UniqueValues(src))
 
+(* When the source went through a pre-stage its row ORDER is no longer that of `src` (a shuffle keeps the rows, not their
+   order), so "first" / "last" name no particular row any more: then exactly one row of every key class survives, whichever. *)
+OneRowPerKey(out, src, subset) ==
+  /\ \A q \in DOMAIN out : \E i \in DOMAIN src : Cells(out[q]) = Cells(src[i])
+  /\ \A p, q \in DOMAIN out : p # q => DupKey(out[p], subset) # DupKey(out[q], subset)
+  /\ { DupKey(out[q], subset) : q \in DOMAIN out } = { DupKey(src[i], subset) : i \in DOMAIN src }
+
 \* the result order of drop_duplicates / unique is not promised once the data is shuffled: multisets
-DedupBad(src, subset, keep, obs) ==
+DedupBad(src, subset, keep, anyrep, obs) ==
   IF obs.raised # "" THEN {"Raised"}
-  ELSE Fails("Rows", SameRows(Flat(obs.parts), DropDuplicates(src, subset, keep)))
+  ELSE Fails("Rows", IF anyrep THEN OneRowPerKey(Flat(obs.parts), src, subset) ELSE SameRows(Flat(obs.parts), DropDuplicates(src, subset, keep)))
        \cup Fails("Meta", obs.nparts = Len(obs.parts) /\ obs.ndivs = obs.nparts + 1)
        \cup Fails("WholeOK", obs.wholeok)
 
